@@ -209,9 +209,16 @@ def part_sorted(rec, shard, nshards):
                             "list_b": items[1][2]})
 
 
+BAD_SUFFIXES = ["rc.dev", "alpha.x", "beta.2.gamma", "rc.1.dev", "alpha.beta.gamma.x", "rc.RC", "beta.-"]
+
+
 def part_rejects(rec):
-    for lab in BAD_LABELS:
-        for s in (f"1.0-{lab}", f"1.2.3-{lab}.1", f"2-{lab}"):
+    cands = [s for lab in BAD_LABELS for s in (f"1.0-{lab}", f"1.2.3-{lab}.1", f"2-{lab}")]
+    # a supported label first, something unsupported behind it
+    cands += [f"{base}-{sfx}" for sfx in BAD_SUFFIXES for base in ("1.0.0", "2.5")]
+    # every candidate is converted TWICE (and once more at the end): a refusal must not wear off
+    for s in cands + cands + cands[::-1]:
+        if True:
             rec.count("reject-candidates")
             rec.case("reject/" + s, True)
             try:
